@@ -92,9 +92,13 @@ Definition rotated_ok (h : list event) (s : st) := forall e pl cr n sc,
   f_keep cf = false ->      (* a rotating storage *)
   n <= next s /\ find_rt s n = None.
 
+(* a stored token that the storage revoked (or let expire) is gone for good *)
+Definition dead_ok (h : list event) (s : st) := forall e n,
+  In e h -> e_op e = RevokeRT n -> e_out e = ODone -> n <= next (e_pre e) -> n <= next s /\ find_rt s n = None.
+
 Record Inv (h : list event) (s : st) : Prop := {
   i_req : req_ok h s; i_codes : codes_ok h s; i_fun : codes_fun s; i_used : used_ok h s;
-  i_rts : rts_ok h s; i_issued : issued_ok h s; i_rot : rotated_ok h s }.
+  i_rts : rts_ok h s; i_issued : issued_ok h s; i_rot : rotated_ok h s; i_dead : dead_ok h s }.
 
 Lemma in_snoc {A} (x e : A) h : In x (h ++ [e]) <-> In x h \/ x = e.
 Proof. rewrite in_app_iff. cbn. intuition. Qed.
@@ -181,7 +185,7 @@ Lemma inv_same h s r o x :
   Inv h s -> (match x with OAuthz None | OLogin false | OCbErr | OCbFail | OErr _ _ => True | _ => False end) ->
   Inv (h ++ [mkev s r o x s]) s.
 Proof.
-  intros [Ireq Icodes Ifun Iused Irts Iissued Irot] Hx.
+  intros [Ireq Icodes Ifun Iused Irts Iissued Irot Idead] Hx.
   set (ev := mkev s r o x s).
   assert (Hold : forall e, In e h -> In e (h ++ [ev])) by (intros; apply in_snoc; auto).
     constructor.
@@ -196,24 +200,26 @@ Proof.
       cbn in Ho. subst x. contradiction.
     + intros e pl0 cr n sc Hin Ho Hk Hkp. apply in_snoc in Hin as [Hin | ->]; [eauto|].
       cbn in Hk. destruct x; try discriminate. contradiction.
+    + intros e n1 Hin Ho Hdn Hle. apply in_snoc in Hin as [Hin | ->]; [eauto|].
+      cbn in Hdn. subst x. contradiction.
 Qed.
 
 Lemma inv_step h s r o s' x :
   Inv h s -> trans H cf s o s' x -> Inv (h ++ [mkev s r o x s']) s'.
 Proof.
-  intros [Ireq Icodes Ifun Iused Irts Iissued Irot] Ht.
+  intros [Ireq Icodes Ifun Iused Irts Iissued Irot Idead] Ht.
   set (ev := mkev s r o x s').
   assert (Hold : forall e, In e h -> In e (h ++ [ev])) by (intros; apply in_snoc; auto).
   assert (Hnew : In ev (h ++ [ev])) by (apply in_snoc; auto).
   destruct Ht as [o x Hx Hns | pl0 cr0 n0 sc0 t0 Hrt0 Hn0 | cl uri scopes nonce chal ax | n sub stamp q Hq | n q Hq Hd
                  | pl f cr cd uri ver q c Hcr Hfc Hp Hu Hch Hpub | pl cr n scopes t c sc Hrt Hfc Hr Hfl Hp Hn
-                 | cl].
+                 | cl | nrev].
   - (* nothing happened *)
     apply inv_same; [constructor; assumption | exact Hx].
   - (* invalid_scope: nothing happened *)
     apply inv_same; [constructor; assumption | exact I].
   - (* authorize *)
-    constructor; unfold req_ok, codes_ok, codes_fun, used_ok, rts_ok, issued_ok, rotated_ok, find_req, find_rt;
+    constructor; unfold req_ok, codes_ok, codes_fun, used_ok, rts_ok, issued_ok, rotated_ok, dead_ok, find_req, find_rt;
       cbn [reqs codes rtoks next ncode].
     + intros q [<- | Hin]; cbn.
       * split; [lia|]. split; [|discriminate]. exists ev. split; [exact Hnew|]. split; [|reflexivity].
@@ -232,8 +238,10 @@ Proof.
       destruct (Iissued e t0 n Hin Ho Hk) as [A B]. split; [lia | exact B].
     + intros e pl0 cr n sc Hin Ho Hk Hkp. apply in_snoc in Hin as [Hin | ->]; [|discriminate].
       destruct (Irot e pl0 cr n sc Hin Ho Hk Hkp) as [A B]. split; [lia | exact B].
+    + intros e n1 Hin Ho Hdn Hle. apply in_snoc in Hin as [Hin | ->]; [|discriminate].
+      destruct (Idead e n1 Hin Ho Hdn Hle) as [A B]. split; [lia | exact B].
   - (* login *)
-    constructor; unfold req_ok, codes_ok, codes_fun, used_ok, rts_ok, issued_ok, rotated_ok, find_req, find_rt;
+    constructor; unfold req_ok, codes_ok, codes_fun, used_ok, rts_ok, issued_ok, rotated_ok, dead_ok, find_req, find_rt;
       cbn [reqs codes rtoks next ncode].
     + intros q' Hin. apply in_map_iff in Hin as [q0 [<- Hin]].
       destruct (Ireq q0 Hin) as [A [[e [B1 B2]] C]]. unfold set_login.
@@ -249,8 +257,10 @@ Proof.
     + intros t Hin. destruct (Irts t Hin) as [A [e [t0 [B1 B2]]]]. split; [exact A | oldrt].
     + intros e t0 m Hin Ho Hk. apply in_snoc in Hin as [Hin | ->]; [eauto | discriminate].
     + intros e pl0 cr m sc Hin Ho Hk Hkp. apply in_snoc in Hin as [Hin | ->]; [eauto | discriminate].
+    + intros e n1 Hin Ho Hdn Hle. apply in_snoc in Hin as [Hin | ->]; [|discriminate].
+      destruct (Idead e n1 Hin Ho Hdn Hle) as [A B]. split; [lia | exact B].
   - (* callback *)
-    constructor; unfold req_ok, codes_ok, codes_fun, used_ok, rts_ok, issued_ok, rotated_ok, find_req, find_rt;
+    constructor; unfold req_ok, codes_ok, codes_fun, used_ok, rts_ok, issued_ok, rotated_ok, dead_ok, find_req, find_rt;
       cbn [reqs codes rtoks next ncode].
     + intros q' Hin. destruct (Ireq q' Hin) as [A [[e [B1 B2]] C]]. split; [exact A|]. split; [old|].
       intro Hd0. destruct (C Hd0) as [e' [C1 C2]]. old.
@@ -268,6 +278,8 @@ Proof.
     + intros t Hin. destruct (Irts t Hin) as [A [e [t0 [B1 B2]]]]. split; [exact A | oldrt].
     + intros e t0 m Hin Ho Hk. apply in_snoc in Hin as [Hin | ->]; [eauto | discriminate].
     + intros e pl0 cr m sc Hin Ho Hk Hkp. apply in_snoc in Hin as [Hin | ->]; [eauto | discriminate].
+    + intros e n1 Hin Ho Hdn Hle. apply in_snoc in Hin as [Hin | ->]; [|discriminate].
+      destruct (Idead e n1 Hin Ho Hdn Hle) as [A B]. split; [lia | exact B].
   - (* code exchange *)
     destruct (issue_code_shape s q c) as [Sreq [Scodes [Sncode [Snext [t0 [Sout Srt]]]]]].
     destruct (code_req_in _ _ _ Hcr) as [Hcin Hqf].
@@ -311,6 +323,10 @@ Proof.
       destruct (Irot e pl0 cr' m sc Hin Ho Hk Hkp) as [A B]. split; [lia|].
       destruct Srt as [[_ Srt] | [new [St0 [Srt [Hid [Hle Hm]]]]]]; unfold find_rt in B |- *; rewrite Srt; [exact B|].
       cbn [find]. rewrite Hid. destruct (Nat.eqb (S (next s)) m) eqn:E; [apply Nat.eqb_eq in E; lia | exact B].
+    + intros e n1 Hin Ho Hdn Hle. apply in_snoc in Hin as [Hin | ->]; [|discriminate].
+      destruct (Idead e n1 Hin Ho Hdn Hle) as [A B]. split; [lia|].
+      destruct Srt as [[_ Srt] | [new [St0 [Srt [Hid [Hle' Hm]]]]]]; unfold find_rt in B |- *; rewrite Srt; [exact B|].
+      cbn [find]. rewrite Hid. destruct (Nat.eqb (S (next s)) n1) eqn:E; [apply Nat.eqb_eq in E; lia | exact B].
   - (* refresh *)
     destruct (issue_refresh_shape s t c sc)
       as [Sreq [Scodes [Sncode [Snext [t0 [new [Sout [St0 [Hm [Srt [Nsc [Nsub [Nauth [Ncl [Naud Hpol]]]]]]]]]]]]]]].
@@ -359,8 +375,11 @@ Proof.
       * destruct (Irot e pl0 cr' m sc' Hin Ho Hk Hkp) as [A B]. split; [lia|].
         destruct (Nat.eq_dec m n) as [-> | Hne]; [now apply Hfn|]. rewrite Hfo; auto.
       * cbn in Ho. injection Ho as <- <- <- <-. split; [lia | now apply Hfn].
+    + intros e n1 Hin Ho Hdn Hle. apply in_snoc in Hin as [Hin | ->]; [|discriminate].
+      destruct (Idead e n1 Hin Ho Hdn Hle) as [A B]. split; [lia|].
+      rewrite Hfo; [exact B | exact A | congruence].
   - (* the refresh grant of a client is withdrawn: storage objects untouched *)
-    constructor; unfold req_ok, codes_ok, codes_fun, used_ok, rts_ok, issued_ok, rotated_ok, find_req, find_rt;
+    constructor; unfold req_ok, codes_ok, codes_fun, used_ok, rts_ok, issued_ok, rotated_ok, dead_ok, find_req, find_rt;
       cbn [reqs codes rtoks next ncode].
     + intros q Hin. destruct (Ireq q Hin) as [A [[e [B1 B2]] C]]. split; [exact A|]. split; [old|].
       intro Hd. destruct (C Hd) as [e' [C1 C2]]. old.
@@ -370,6 +389,38 @@ Proof.
     + intros t Hin. destruct (Irts t Hin) as [A [e [t0 [B1 B2]]]]. split; [exact A | oldrt].
     + intros e t0 n Hin Ho Hk. apply in_snoc in Hin as [Hin | ->]; [eauto | discriminate].
     + intros e pl0 cr n sc Hin Ho Hk Hkp. apply in_snoc in Hin as [Hin | ->]; [eauto | discriminate].
+    + intros e n1 Hin Ho Hdn Hle. apply in_snoc in Hin as [Hin | ->]; [|discriminate].
+      destruct (Idead e n1 Hin Ho Hdn Hle) as [A B]. split; [lia | exact B].
+  - (* a refresh token is revoked / expires: it is gone, everything else untouched *)
+    assert (Hfk : forall m, m <> nrev -> find_rt
+              {| reqs := reqs s; codes := codes s; rtoks := filter (fun x => negb (Nat.eqb (r_id x) nrev)) (rtoks s);
+                 next := next s; ncode := ncode s; norefresh := norefresh s |} m = find_rt s m).
+    { intros m Hne. unfold find_rt. cbn [rtoks]. apply find_filter_keep. intros y Ey. apply Nat.eqb_eq in Ey.
+      rewrite Ey. apply negb_true_iff, Nat.eqb_neq. exact Hne. }
+    assert (Hfd : find_rt
+              {| reqs := reqs s; codes := codes s; rtoks := filter (fun x => negb (Nat.eqb (r_id x) nrev)) (rtoks s);
+                 next := next s; ncode := ncode s; norefresh := norefresh s |} nrev = None).
+    { unfold find_rt. cbn [rtoks]. apply find_filter_drop. intros y Ey. apply Nat.eqb_eq in Ey.
+      rewrite Ey, Nat.eqb_refl. reflexivity. }
+    constructor.
+    + intros q Hin. destruct (Ireq q Hin) as [A [[e [B1 B2]] C]]. split; [exact A|]. split; [old|].
+      intro Hd. destruct (C Hd) as [e' [C1 C2]]. old.
+    + intros c n Hin. destruct (Icodes c n Hin) as [A [B [e [C1 C2]]]]. split; [exact A | split; [exact B | old]].
+    + exact Ifun.
+    + intros e pl0 f0 cr c uri ver Hin Ho Hk. apply in_snoc in Hin as [Hin | ->]; [eauto | discriminate].
+    + intros t Hin. cbn [rtoks] in Hin. apply filter_In in Hin as [Hin _].
+      destruct (Irts t Hin) as [A [e [t0 [B1 B2]]]]. split; [exact A | oldrt].
+    + intros e t0 n Hin Ho Hk. apply in_snoc in Hin as [Hin | ->]; [|discriminate].
+      destruct (Iissued e t0 n Hin Ho Hk) as [A B]. split; [exact A|]. intros rec Hf.
+      destruct (Nat.eq_dec n nrev) as [-> | Hne]; [rewrite Hfd in Hf; discriminate|].
+      rewrite Hfk in Hf; auto.
+    + intros e pl0 cr n sc Hin Ho Hk Hkp. apply in_snoc in Hin as [Hin | ->]; [|discriminate].
+      destruct (Irot e pl0 cr n sc Hin Ho Hk Hkp) as [A B]. split; [exact A|].
+      destruct (Nat.eq_dec n nrev) as [-> | Hne]; [exact Hfd | rewrite Hfk; auto].
+    + intros e n1 Hin Ho Hdn Hle. apply in_snoc in Hin as [Hin | ->].
+      * destruct (Idead e n1 Hin Ho Hdn Hle) as [A B]. split; [exact A|].
+        destruct (Nat.eq_dec n1 nrev) as [-> | Hne]; [exact Hfd | rewrite Hfk; auto].
+      * cbn in Ho. injection Ho as <-. cbn in Hle. split; [exact Hle | exact Hfd].
 Qed.
 
 Lemma reach_inv h s : reach h s -> Inv h s.
